@@ -4,6 +4,7 @@ import AslModel.Solve
 import Gen.Matrix4Gen
 import Gen.Matrix3Gen
 import Gen.QuatGen
+import Gen.Vec3Gen
 /-! Model driver for C20: the generated closed forms and the `solve_` model evaluated over the prime field 2^61-1. -/
 open Driver AslModel
 
@@ -93,6 +94,11 @@ def step (_ : Unit) (ts : List String) : Unit × String :=
         else if op == "m3mul" && n == 18 then show2 3 3 (Gen.M3.mul F (matOf 3 v) (matOf 3 v 9))
         else if op == "m3tr" && n == 9 then show2 3 3 (Gen.M3.transposed F (matOf 3 v))
         else if op == "m3v3" && n == 12 then showV3 (Gen.M3.mulVec3 F (matOf 3 v) (v3Of v 9))
+        else if op == "v3cross" && n == 6 then showV3 (Gen.V3.cross F (v3Of v 0) (v3Of v 3))
+        else if op == "v3dot" && n == 6 then toString (Gen.V3.dot F (v3Of v 0) (v3Of v 3))
+        else if op == "v3lin" && n == 7 then
+          showV3 (Gen.V3.sub F (Gen.V3.add F (v3Of v 0) (Gen.V3.smul F (v3Of v 3) (v.getD 6 0))) (v3Of v 3))
+        else if op == "v3len2" && n == 3 then toString (Gen.V3.length2 F (v3Of v 0))
         else if op == "qmat" && n == 4 then show2 4 4 (Gen.Q.matrix F (quatOf v))
         else if op == "qmul" && n == 8 then showQ (Gen.Q.mul F (quatOf v) (quatOf v 4))
         else if op == "qconj" && n == 4 then showQ (Gen.Q.conj F (quatOf v))
